@@ -64,3 +64,8 @@ claim("C17", "other",
       "40-key matrix, 7 compound keys, 2x5 Sinclair controls, 8 Kempston bits, 4 mouse buttons, wheel and motion arithmetic, source separation of the three matrices, CAPS SHIFT release rule.",
       "One open known finding (Sinclair joystick 2 'down'); the row AND across matrices is decided under C07.",
       "DESIGN.md §3 C17")
+claim("C18", "other",
+      "evaluated statics/consts (envelope function table, reload table, DAC tables) composed with extracted summaries of the segment functions and compared with a data-sheet generator; register decode and period clamps by term equivalence; pan table by constant propagation",
+      "All 16 envelope shapes (3 periods), DAC monotonicity/range, 7 pan triples, decode of R0-R13 and ignoring of 14/15, 0-acts-as-1 clamps, mixer bit polarity, ZXAyChip select/read/write pairing.",
+      "Not decided: frequencies, envelope period in seconds, filtered amplitudes, finiteness of floating-point output (numeric).",
+      "DESIGN.md §3 C18")
